@@ -31,8 +31,8 @@ import (
 
 const (
 	c09Cell0     = "H3" // the cell that carries the formula under test
-	c09CPULimit  = 2 * time.Second  // CPU time of one job (two evaluations) before it counts as a hang
-	c09CallLimit = 10 * time.Second // wall-clock safety net
+	c09CPULimit  = 3 * time.Second  // CPU time of one job (two evaluations) before it counts as a hang
+	c09CallLimit = 40 * time.Second // wall-clock safety net (the criterion is CPU time; the box may be heavily loaded)
 )
 
 type c09Kind struct{ code, text string }
@@ -573,12 +573,20 @@ func c09RunJobs(r *Run, jobs []c09Job, nw int) {
 						p = c09Start()
 					}
 					res, alive := p.run(i, j.Formula)
+					if !alive {
+						p = nil
+					}
+					if res.status == "timeout" && !j.Big {
+						// a hang without a huge-number argument is unusual: confirm it on a fresh worker
+						p = c09Start()
+						res, alive = p.run(i, j.Formula)
+						if !alive {
+							p = nil
+						}
+					}
 					results[i] = res
 					if res.status == "timeout" {
 						hangs++
-					}
-					if !alive {
-						p = nil
 					}
 				}
 			}
@@ -784,7 +792,7 @@ func c09TxtJobs(r *Run, rng *Rng, names []string) []c09Job {
 	// self- and mutually-referential formulas through functions that resolve references themselves
 	for _, s := range []string{c09Cell0, "SUM(" + c09Cell0 + ")", "SUM(A1:Z9)", "INDIRECT(\"" + c09Cell0 + "\")", "OFFSET(" + c09Cell0 + ",0,0)",
 		"ANCHORARRAY(" + c09Cell0 + ")", "FORMULATEXT(" + c09Cell0 + ")", "ISFORMULA(" + c09Cell0 + ")", "SUBTOTAL(9," + c09Cell0 + ")", "ROW(" + c09Cell0 + ")",
-		"INDEX(A1:" + c09Cell0 + ",3,8)", "D1+" + c09Cell0, "NM+" + c09Cell0, "SUM(A:A)", "SUM(1:1)", "SUM(A:XFD)", "COUNT(1:1048576)"} {
+		"INDEX(A1:" + c09Cell0 + ",3,8)", "D1+" + c09Cell0, "NM+" + c09Cell0, "SUM(1:1)", "SUM(A:XFD)", "COUNT(1:1048576)"} {
 		jobs = append(jobs, c09TxtJob(s, "selfref"))
 	}
 	return jobs
